@@ -332,7 +332,7 @@ Print Assumptions C03_any_read_program_run.
 
 (* The added hypothesis is forced: when NOTHING follows the last data frame and the transport
    delivers io.EOF together with the last payload bytes, the last Read returns those bytes AND
-   io.EOF in one call and the next Read on the same reader returns 1006 "unexpected EOF". *)
+   io.EOF in one call (and the next Read on the same reader returns io.EOF again). *)
 Example C03_why_a_byte_must_follow :
   conformant_frames ReadProgDemo.ex_cfg ReadProgDemo.cx_fs /\ binv ReadProgDemo.cx_b /\
   (125 <= bsize ReadProgDemo.cx_b)%nat /\
@@ -340,7 +340,7 @@ Example C03_why_a_byte_must_follow :
   data_msgs (events_of ReadProgDemo.cx_fs) = [(2, false, ReadProgDemo.cx_payload)] /\
   (forall outs s', run_ops (fun _ => None) ReadProgDemo.ex_cfg (init_rst ReadProgDemo.cx_b)
                      (ONext :: map ORead [200;200]%nat) = (RNext 2 None :: outs, s') ->
-     outs = [RData ReadProgDemo.cx_payload (Some RIoEOF); RData [] (Some unexpected_eof)] /\
+     outs = [RData ReadProgDemo.cx_payload (Some RIoEOF); RData [] (Some RIoEOF)] /\
      ~ reads_ok ReadProgDemo.cx_payload [200;200]%nat outs).
 Proof. exact ReadProgDemo.glued_eof_counterexample. Qed.
 Print Assumptions C03_why_a_byte_must_follow.
